@@ -49,7 +49,23 @@ def opList (j : Json) : List Json :=
   | some (.obj _) => l.dropLast
   | _ => l
 
-def parseOp (j : Json) : Option Op :=
+/-- the harness says how it built the argument ("good": accepted, "early" / "late": refused before /
+after the idiom), not which path of the source the call takes; the outcome is chosen from the
+outcomes the resolved member has: the one normal outcome when all returning paths agree on the touch
+state (none when they do not: the history cannot be predicted), the raising outcome otherwise -/
+def outcomeOf (s : State) (e : Nat) (via : Option Cls) (m : Mem) (inp : Input) : Option Outcome :=
+  match aliveAt s e with
+  | none => none
+  | some ent =>
+    match resolve (match via with | some c => c | none => ent.kind.cls) m with
+    | none => none
+    | some mb =>
+      match inp with
+      | .good => mb.acceptedOutcome
+      | .refusedEarly => some ⟨.raises, .none⟩     -- the validation at the call boundary: always possible
+      | .refusedLate => mb.refusedOutcome true
+
+def parseOp (s : State) (j : Json) : Option Op :=
   match opList j with
   | [Json.str "create", Json.str k, p, Json.str inp] => do
     let k ← kindOf k; let p ← jInt? p; let inp ← inputOf inp
@@ -58,8 +74,10 @@ def parseOp (j : Json) : Option Op :=
     let e ← jInt? e; let m ← Mem.ofString m; let inp ← inputOf inp
     if e < 0 then none else
     match via with
-    | .null => some (.call e.toNat none m inp)
-    | .str c => do let c ← Cls.ofString c; some (.call e.toNat (some c) m inp)
+    | .null => do let o ← outcomeOf s e.toNat none m inp; some (.call e.toNat none m o)
+    | .str c => do
+      let c ← Cls.ofString c; let o ← outcomeOf s e.toNat (some c) m inp
+      some (.call e.toNat (some c) m o)
     | _ => none
   | [Json.str "force_created", e, t] => do
     let e ← jInt? e
@@ -98,8 +116,10 @@ def handle (st : Option State) (j : Json) : Option State × Json :=
     match Cls.ofString c, Mem.ofString m with
     | some c, some m =>
       match resolve c m with
-      | some mb => (st, ok (Json.mkObj [("kind", Json.str (mkindJ mb.kind)), ("touch", Json.str (touchJ mb.touch)),
-                                        ("last", Json.bool mb.last)]))
+      | some mb => (st, ok (Json.mkObj [("kind", Json.str (mkindJ mb.kind)),
+          ("outcomes", Json.arr (mb.outcomes.map fun o =>
+            Json.arr #[Json.str (match o.exit with | .returns => "returns" | .raises => "raises"),
+                       Json.str (touchJ o.touch)]).toArray)]))
       | none => (st, ok Json.null)
     | _, _ => (st, ok Json.null)
   | [Json.str "open", clock, Json.bool auto] =>
@@ -109,12 +129,14 @@ def handle (st : Option State) (j : Json) : Option State × Json :=
       | .error e => (none, err e)
     | none => (st, bad "C19: open needs an integer clock")
   | _ =>
-    match st, parseOp j with
-    | some s, some op =>
-      let (s', r) := step s op
-      (some s', outJ s' r)
-    | none, some _ => (st, bad "C19: no open file")
-    | _, none => (st, bad "C19: unknown op")
+    match st with
+    | none => (st, bad "C19: no open file")
+    | some s =>
+      match parseOp s j with
+      | some op =>
+        let (s', r) := step s op
+        (some s', outJ s' r)
+      | none => (st, bad "C19: unknown op, or a call whose outcome the source does not determine")
 
 def main : IO Unit := loop (none : Option State) handle
 
